@@ -140,14 +140,24 @@ def prefetch_to_device(iterator, size, devices=None):
   def _prefetch(xs):
     return jax.device_put_sharded(list(xs), devices)
 
+  source_error = None
+
   def enqueue(n):  # Enqueues *up to* `n` elements from the iterator.
-    for data in itertools.islice(iterator, n):
-      queue.append(jax.tree_util.tree_map(_prefetch, data))
+    nonlocal source_error
+    try:
+      for data in itertools.islice(iterator, n):
+        queue.append(jax.tree_util.tree_map(_prefetch, data))
+    except Exception as e:  # pylint: disable=broad-except
+      # Deliver the items that were already prefetched before re-raising.
+      source_error = e
 
   enqueue(size)  # Fill up the buffer.
   while queue:
     yield queue.popleft()
-    enqueue(1)
+    if source_error is None:
+      enqueue(1)
+  if source_error is not None:
+    raise source_error
 
 
 def _scan_nd(body_fn, init, xs, n=1, unroll=(1,)):
